@@ -34,6 +34,8 @@ gen_topup.main([os.path.join(b, "src"), vlib.LEAN])
 import gen_mhupdate
 gen_mhupdate.main([os.path.join(b, "src"), vlib.LEAN])
 gen_mhupdate.main_tail([os.path.join(b, "src"), vlib.LEAN])
+import gen_mhfin
+gen_mhfin.main([os.path.join(b, "src"), vlib.LEAN])
 
 import gen_flush
 gen_flush.main([os.path.join(b, "src"), vlib.LEAN])
